@@ -2224,6 +2224,13 @@ impl SctpInner {
         let tag = self.remote_verification_tag.load(Ordering::SeqCst);
         self.send_chunk(CT_COOKIE_ACK, 0, Bytes::new(), tag).await?;
 
+        // A retransmitted COOKIE ECHO for an association that is already established
+        // (our COOKIE ACK was lost or late) only needs the acknowledgement again; the
+        // channels have been opened and must not be announced a second time.
+        if *self.state.lock() == SctpState::Connected {
+            return Ok(());
+        }
+
         *self.state.lock() = SctpState::Connected;
         self.advanced_peer_ack_tsn.store(
             self.next_tsn.load(Ordering::SeqCst).wrapping_sub(1),
